@@ -754,6 +754,7 @@ class Scenario:
             rec_in.reader_conn = proto
             rec_in.reader_started = True
             v = proto.vf
+            nreads = 0
             while True:
                 chunk = await reader.read(read_size if read_size > 0 else 65536)
                 if not chunk:
@@ -772,7 +773,8 @@ class Scenario:
                 data = prf_bytes(rec_out.key, n, rec_out.written)
                 rec_out.written += n
                 writer.write(data)
-                if reply["pause"]:
+                nreads += 1
+                if reply["pause"] and nreads <= 3:  # (a consumer that stays slow would make delivery times the harness's doing)
                     await asyncio.sleep(reply["pause"])
             rec_in.eof_seen = True
             rec_in.eof_seen_at = self.loop.time()
